@@ -113,7 +113,7 @@ Proof.
 Qed.
 
 (* ------------------------------------------------------------------ one step of the model, unfolded *)
-Definition f_spring (c : @config R) (p : @params R) (xe x : R) : R := (- (1 / 2) * p_k p) * cv_lgrad Rops c xe x.
+Definition f_spring (c : @config R) (p : @params R) (xe x : R) : R := spring Rops c p xe x.
 
 Lemma step_running_eq c p s i :
   i_running i = true -> tsf_error c s i = false ->
@@ -125,20 +125,20 @@ Lemma step_running_eq c p s i :
     let r := integrate Rops c p xe ve (fr + fs) (i_rnd i) in
     mkState (Some (fst (fst (fst r)))) (snd (fst (fst r))) xe ve (i_step i) (i_x i) false
             (snd (fst r)) (1 / 2 * p_k p * cv_dist2 Rops c xe (i_x i))
-            (if c_same_step c then s_ft_rep s else if c_subtract c then fs else fr + fs)
+            (if c_same_step c then fs else if c_subtract c then fs else fr + fs)
             fr (- 1 * fs * IZR (c_tsf c) + i_fba i) xe ve (snd r).
 Proof.
   intros Hrun Herr. unfold step. destruct (props_xv Rops c s i) as [xe ve] eqn:Hp.
-  rewrite Hrun, Herr. cbn [negb fst snd]. unfold ext_forces, f_spring.
+  rewrite Hrun, Herr. cbn [negb fst snd]. unfold ext_forces, f_spring, ft_props, spring.
   destruct (integrate Rops c p xe ve _ (i_rnd i)) as [[[xn vn] ek] er] eqn:Hi.
-  cbn [fst snd]. reflexivity.
+  cbn [fst snd]. destruct (c_same_step c); reflexivity.
 Qed.
 
 Lemma step_not_running_eq c p s i :
   i_running i = false ->
   step Rops c p s i =
     mkState (Some (clamp_init Rops c (i_x i))) 0 (s_prev_x s) (s_prev_v s) (i_step i) (i_x i) false
-            (s_ekin s) (s_epot s) (s_ft_rep s) 0 (i_fb i + i_fba i) (clamp_init Rops c (i_x i)) 0 false.
+            (s_ekin s) (s_epot s) (ft_props Rops c p s (clamp_init Rops c (i_x i)) (i_x i)) 0 (i_fb i + i_fba i) (clamp_init Rops c (i_x i)) 0 false.
 Proof.
   intros Hrun. unfold step, props_xv. rewrite Hrun. cbn [negb andb orb].
   rewrite !orb_true_r. reflexivity.
@@ -189,9 +189,7 @@ Lemma props_repeat c s i :
   i_running i = true -> i_step i = s_prev_ts s ->
   props_xv Rops c s i =
     if Rltb (1 / 4) (cv_dist2 Rops c (i_x i) (s_x_old s) / (c_width c * c_width c))
-    then (clamp_init Rops c (i_x i),
-          snd (if (Z.eqb (i_step i) 0 && negb (s_after_restart s)) || (match s_x_ext s with None => true | Some _ => false end)
-               then (clamp_init Rops c (i_x i), 0) else (xext_or s 0, s_v_ext s)))
+    then (clamp_init Rops c (i_x i), 0)
     else (s_prev_x s, s_prev_v s).
 Proof.
   intros Hrun He. unfold props_xv. rewrite Hrun. cbn [negb andb]. rewrite orb_false_r.
@@ -258,7 +256,7 @@ Fixpoint consecutive (tsf t : Z) (l : list (@input R)) : Prop :=
   end.
 
 Lemma f_spring_free c p xe x : c_period c = None -> f_spring c p xe x = - (p_k p * (xe - x)).
-Proof. intros Hper. unfold f_spring, cv_lgrad, sc_grad. rewrite Hper. cbn [nmul nsub nofZ Rops]. field. Qed.
+Proof. intros Hper. unfold f_spring, spring, cv_lgrad, sc_grad. rewrite Hper. cbn [nmul nsub nofZ nneg nhalf ndiv n1 Rops]. field. Qed.
 
 Lemma dist2_free c xe x : c_period c = None -> cv_dist2 Rops c xe x = (xe - x) ^ 2.
 Proof. intros Hper. unfold cv_dist2, sc_dist2. rewrite Hper. cbn [nmul nsub Rops]. ring. Qed.
@@ -668,11 +666,9 @@ Proof.
   intros Hrun Hrun' Herr Hst Hnj s1 s2.
   destruct (repeat_start c p s i i' Hrun Hrun' Herr Hst Hnj) as [Hp Herr'].
   unfold s2. rewrite (step_running_eq c p s1 i' Hrun' Herr'). fold s1 in Hp. rewrite Hp. cbn zeta.
-  unfold s1 at 2 4. rewrite (step_running_eq c p s i Hrun Herr). cbn zeta. cbn [s_x_rep s_v_rep].
+  unfold s1. rewrite (step_running_eq c p s i Hrun Herr). cbn zeta. cbn [s_x_rep s_v_rep].
   split; [reflexivity | split; [reflexivity | ]].
-  intros Hx Hfb Hfba Hrnd. rewrite Hx, Hfb, Hfba, Hrnd, Hst.
-  unfold s1. rewrite (step_running_eq c p s i Hrun Herr). cbn zeta. cbn [s_ft_rep]. 
-  destruct (c_same_step c); reflexivity.
+  intros Hx Hfb Hfba Hrnd. rewrite Hx, Hfb, Hfba, Hrnd, Hst. reflexivity.
 Qed.
 
 Lemma repeat_idempotent c p s i :
@@ -691,18 +687,16 @@ Proof.
 Qed.
 
 (* ------------------------------------------------------------------ reported total force *)
-Lemma ft_same_step_unchanged c p s i : c_same_step c = true -> s_ft_rep (step Rops c p s i) = s_ft_rep s.
+(* engines with same-step total forces: the system (spring) force of the current step [fix-C17-2] *)
+Lemma ft_same_step c p s i :
+  c_same_step c = true ->
+  s_ft_rep (step Rops c p s i) = f_spring c p (fst (props_xv Rops c s i)) (i_x i).
 Proof.
-  intros Hs. unfold step. destruct (props_xv Rops c s i) as [xe ve].
-  destruct (negb (i_running i)); [reflexivity | ]. destruct (tsf_error c s i); [reflexivity | ].
+  intros Hs. unfold step, f_spring. destruct (props_xv Rops c s i) as [xe ve]. cbn [fst].
+  destruct (negb (i_running i)); [cbn [s_ft_rep]; unfold ft_props; rewrite Hs; reflexivity | ].
+  destruct (tsf_error c s i); [cbn [s_ft_rep]; unfold ft_props; rewrite Hs; reflexivity | ].
   destruct (ext_forces Rops c p xe i) as [[fr fs] fe]. destruct (integrate Rops c p xe ve fe (i_rnd i)) as [[[xn vn] ek] er].
-  cbn [s_ft_rep]. rewrite Hs. reflexivity.
-Qed.
-
-Lemma ft_same_step_run c p l s : c_same_step c = true -> s_ft_rep (run Rops c p s l) = s_ft_rep s.
-Proof.
-  intros Hs. revert s. induction l as [| i r IH]; intros s; [reflexivity | ].
-  unfold run in *. cbn [fold_left]. rewrite IH. apply ft_same_step_unchanged. exact Hs.
+  cbn [s_ft_rep]. unfold ft_props. rewrite Hs. reflexivity.
 Qed.
 
 Lemma ft_lagged c p s i :
@@ -772,11 +766,10 @@ Qed.
    step t again (relative step 0): it lands exactly where the first process was after step t *)
 Lemma resume_first c p s i :
   i_running i = true -> tsf_error c s i = false -> (0 <= i_step i)%Z ->
-  (c_same_step c = true -> s_ft_rep s = 0) ->
   let s1 := step Rops c p s i in
   step Rops c p (restart_state Rops (s_x_rep s1) (s_v_rep s1)) (shift_input (i_step i) i) = shift_state (i_step i) s1.
 Proof.
-  intros Hrun Herr Hst Hft s1.
+  intros Hrun Herr Hst s1.
   assert (Hx : s_x_rep s1 = fst (props_xv Rops c s i) /\ s_v_rep s1 = snd (props_xv Rops c s i)).
   { unfold s1. rewrite (step_running_eq c p s i Hrun Herr). cbn. split; reflexivity. }
   destruct Hx as [Hx Hv]. set (r0 := restart_state Rops (s_x_rep s1) (s_v_rep s1)). set (i0 := shift_input (i_step i) i).
@@ -792,20 +785,18 @@ Proof.
   rewrite (step_running_eq c p r0 i0 Hrun0 Herr0). rewrite Hp0.
   unfold s1. rewrite (step_running_eq c p s i Hrun Herr). cbn zeta.
   unfold shift_state, i0, shift_input. cbn [s_x_ext s_v_ext s_prev_x s_prev_v s_prev_ts s_x_old s_after_restart s_ekin s_epot s_ft_rep s_fr s_f s_x_rep s_v_rep s_err i_step i_x i_fb i_fba i_rnd].
-  replace (s_ft_rep r0) with 0 by reflexivity.
-  destruct (c_same_step c) eqn:Es; [rewrite (Hft eq_refl) | ]; reflexivity.
+  reflexivity.
 Qed.
 
 Lemma resume_trace c p s i l :
   i_running i = true -> tsf_error c s i = false -> (0 <= i_step i)%Z ->
-  (c_same_step c = true -> s_ft_rep s = 0) ->
   List.Forall (fun j => i_running j = true /\ (i_step i < i_step j)%Z) l ->
   let s1 := step Rops c p s i in
   trace Rops c p (restart_state Rops (s_x_rep s1) (s_v_rep s1)) (map (shift_input (i_step i)) (i :: l))
   = map (shift_state (i_step i)) (trace Rops c p s (i :: l)).
 Proof.
-  intros Hrun Herr Hst Hft Hl s1. cbn [map trace]. fold s1.
-  pose proof (resume_first c p s i Hrun Herr Hst Hft) as H0. cbn zeta in H0. fold s1 in H0. rewrite H0. f_equal.
+  intros Hrun Herr Hst Hl s1. cbn [map trace]. fold s1.
+  pose proof (resume_first c p s i Hrun Herr Hst) as H0. cbn zeta in H0. fold s1 in H0. rewrite H0. f_equal.
   assert (Hs1 : s_after_restart s1 = false /\ s_x_ext s1 <> None /\ s_prev_ts s1 = i_step i).
   { unfold s1. rewrite (step_running_eq c p s i Hrun Herr). cbn. repeat split. discriminate. }
   destruct Hs1 as (H1 & H2 & H3). apply trace_shift; try assumption. lia.
@@ -879,73 +870,382 @@ Proof.
   apply integrate_no_error; assumption.
 Qed.
 
-Lemma resume_after_any_history c p l1 i l2 :
-  let s := run Rops c p (init_state Rops) l1 in
-  i_running i = true -> tsf_error c s i = false -> (0 <= i_step i)%Z ->
-  List.Forall (fun j => i_running j = true /\ (i_step i < i_step j)%Z) l2 ->
-  let s1 := step Rops c p s i in
-  trace Rops c p (restart_state Rops (s_x_rep s1) (s_v_rep s1)) (map (shift_input (i_step i)) (i :: l2))
-  = map (shift_state (i_step i)) (trace Rops c p s (i :: l2)).
-Proof.
-  intros s Hrun Herr Hst Hl s1. apply resume_trace; auto.
-  intros Hs. unfold s. rewrite ft_same_step_run by exact Hs. reflexivity.
-Qed.
-
-(* same-step engines: the reported total force is never assigned *)
-Lemma ft_same_step_refuted :
-  exists (c : @config R) (p : @params R) (i : @input R),
-    c_same_step c = true /\ c_subtract c = false /\ i_running i = true /\ tsf_error c (init_state Rops) i = false /\
-    s_ft_rep (step Rops c p (init_state Rops) i) = 0 /\
-    i_fb i / IZR (c_tsf c) + f_spring c p (fst (props_xv Rops c (init_state Rops) i)) (i_x i) = 1.
-Proof.
-  exists (mkConfig 1 1 1 1 0 1 1%Z 0 1 false false 1 None true false), (mkParams 1 1 0 0 false),
-         (mkInput 0%Z (1 / 2) 1 0 0 true).
-  split; [reflexivity | ]. split; [reflexivity | ]. split; [reflexivity | ]. split; [reflexivity | ]. split.
-  - rewrite ft_same_step_unchanged; reflexivity.
-  - rewrite props_first; [ | reflexivity | cbn; lia | reflexivity ].
-    rewrite clamp_free by reflexivity. cbn [fst i_fb i_x c_tsf]. rewrite f_spring_free by reflexivity. cbn [p_k]. field.
-Qed.
-
 Lemma spring_force_gradient (c : @config R) (p : @params R) xe x :
   c_period c = None ->
   f_spring c p xe x = - (p_k p * (xe - x)) /\
   is_derive (fun X => 1 / 2 * p_k p * cv_dist2 Rops c xe X) x (f_spring c p xe x).
 Proof. intros H. split; [exact (f_spring_free c p xe x H) | exact (spring_is_gradient c p xe x H)]. Qed.
 
-(* state saved BETWEEN two slow steps of a variable with timeStepFactor > 1: the saved extended_x is the coordinate reported at
-   the last slow step t, although the object already holds x_(t+f); the resumed run is one slow step behind *)
-Lemma resume_sleeping_refuted :
-  exists (c : @config R) (p : @params R) (i1 i2 : @input R),
-    free_cfg c /\ c_tsf c = 2%Z /\ consecutive (c_tsf c) 0 [i1; i2] /\
-    let s1 := step Rops c p (init_state Rops) i1 in
-    let s2 := step Rops c p s1 i2 in
-    let r2 := step Rops c p (restart_state Rops (s_x_rep s1) (s_v_rep s1)) (shift_input 1 i2) in
-    s_x_rep s2 = 1 /\ s_x_rep r2 = 0.
+
+(* ================================================================== round 2 *)
+(* ------------------------------------------------------------------ resume with the restart step repeated at a run boundary *)
+Lemma step_shift_repeat c p d s i :
+  (0 <= d)%Z -> s_prev_ts s = d -> i_running i = true -> i_step i = d ->
+  step Rops c p (shift_state d s) (shift_input d i) = shift_state d (step Rops c p s i).
 Proof.
-  set (c := mkConfig 1 1 1 16 0 (1 / 2) 2%Z 0 1 false false 1 None false false).
-  set (p := mkParams 1 1 0 0 false).
-  set (i1 := mkInput 0%Z 0 2 0 0 true). set (i2 := mkInput 2%Z 0 0 0 0 true).
-  exists c, p, i1, i2.
-  assert (Hfree : free_cfg c) by (repeat split).
-  split; [exact Hfree | ]. split; [reflexivity | ]. split; [cbn; repeat split; reflexivity | ].
-  assert (Hp1 : props_xv Rops c (init_state Rops) i1 = (0, 0)).
-  { rewrite props_first; [ | reflexivity | cbn; lia | reflexivity]. rewrite clamp_free; reflexivity. }
-  assert (He1 : tsf_error c (init_state Rops) i1 = false) by reflexivity.
-  destruct (step_free_obs c p (init_state Rops) i1 0 0 Hfree eq_refl He1 Hp1) as (Hobs & Hx & Hts & _ & Har).
-  set (s1 := step Rops c p (init_state Rops) i1) in *.
-  assert (Hd : doc_step c p 0 0 (i_x i1) (i_fb i1 / IZR (c_tsf c)) (i_rnd i1) = (1, 1)).
-  { unfold doc_step, doc_force, Dt. cbn. f_equal; field. }
-  rewrite Hd in Hobs, Hx. cbn [fst snd] in Hobs, Hx.
-  assert (Hrep : s_x_rep s1 = 0 /\ s_v_rep s1 = 0) by (unfold obs in Hobs; inversion Hobs; split; reflexivity).
-  destruct Hrep as [Hxr Hvr]. cbn zeta. split.
-  - assert (Hp2 : props_xv Rops c s1 i2 = (1, s_v_ext s1)).
-    { apply props_continue; [reflexivity | rewrite Hts; cbn; lia | exact Hx | left; cbn; lia]. }
-    assert (He2 : tsf_error c s1 i2 = false) by (apply tsf_error_consec; right; left; rewrite Hts; reflexivity).
-    destruct (routing_running c p s1 i2 eq_refl He2) as (_ & _ & H3 & _). rewrite H3, Hp2. reflexivity.
-  - rewrite Hxr, Hvr.
-    assert (Hp2 : props_xv Rops c (restart_state Rops 0 0) (shift_input 1 i2) = (0, 0)).
-    { rewrite (props_continue c _ _ 0); [reflexivity | reflexivity | cbn; lia | reflexivity | right; reflexivity]. }
-    assert (He2 : tsf_error c (restart_state Rops 0 0) (shift_input 1 i2) = false) by reflexivity.
-    destruct (routing_running c p (restart_state Rops 0 0) (shift_input 1 i2) eq_refl He2) as (_ & _ & H3 & _).
-    rewrite H3, Hp2. reflexivity.
+  intros Hd Hts Hrun Hst.
+  assert (Hp : props_xv Rops c (shift_state d s) (shift_input d i) = props_xv Rops c s i).
+  { rewrite props_repeat; [ | exact Hrun | cbn; lia ]. rewrite (props_repeat c s i Hrun) by lia. reflexivity. }
+  assert (Ht : tsf_error c (shift_state d s) (shift_input d i) = false) by (apply tsf_error_consec; right; right; cbn; lia).
+  assert (Ht' : tsf_error c s i = false) by (apply tsf_error_consec; right; right; lia).
+  unfold step. rewrite Hp, Ht, Ht'. destruct (props_xv Rops c s i) as [xe ve].
+  cbn [shift_input i_running i_step i_x i_fb i_fba i_rnd]. rewrite Hrun. cbn [negb].
+  unfold ext_forces, ft_props. cbn [i_fb i_x shift_state s_ft_rep].
+  destruct (integrate Rops c p xe ve _ (i_rnd i)) as [[[xn vn] ek] er]. reflexivity.
+Qed.
+
+(* continuation of a resumed run: later steps, or (only at its very beginning) repetitions of the restart step d *)
+Fixpoint cont_ok (d : Z) (at_start : bool) (l : list (@input R)) : Prop :=
+  match l with
+  | [] => True
+  | j :: r => i_running j = true /\
+              (((d < i_step j)%Z /\ cont_ok d false r) \/ (at_start = true /\ i_step j = d /\ cont_ok d true r))
+  end.
+
+Lemma step_keeps_live c p s i :
+  i_running i = true ->
+  s_after_restart (step Rops c p s i) = false /\ s_x_ext (step Rops c p s i) <> None /\ s_prev_ts (step Rops c p s i) = i_step i.
+Proof.
+  intros Hrun. unfold step. destruct (props_xv Rops c s i) as [xe ve]. rewrite Hrun. cbn [negb].
+  destruct (tsf_error c s i); [cbn; repeat split; discriminate | ].
+  destruct (ext_forces Rops c p xe i) as [[fr fs] fe]. destruct (integrate Rops c p xe ve fe (i_rnd i)) as [[[xn vn] ek] er].
+  cbn. repeat split; discriminate.
+Qed.
+
+Lemma trace_shift_cont c p d : (0 <= d)%Z ->
+  forall l s b, s_after_restart s = false -> s_x_ext s <> None -> (d <= s_prev_ts s)%Z ->
+    (b = true -> s_prev_ts s = d) -> cont_ok d b l ->
+    trace Rops c p (shift_state d s) (map (shift_input d) l) = map (shift_state d) (trace Rops c p s l).
+Proof.
+  intros Hd. induction l as [| i r IH]; intros s b Har Hx Hts Hb Hl; [reflexivity | ].
+  destruct Hl as [Hrun [[Hst Hr] | [Hbt [Hst Hr]]]]; cbn [map trace];
+    destruct (step_keeps_live c p s i Hrun) as (L1 & L2 & L3).
+  - rewrite (step_shift c p d s i Har Hx (conj Hd Hts) Hrun Hst). f_equal.
+    apply (IH _ false); auto; [lia | discriminate].
+  - rewrite (step_shift_repeat c p d s i Hd (Hb Hbt) Hrun Hst). f_equal.
+    apply (IH _ true); auto; lia.
+Qed.
+
+Lemma resume_trace_cont c p s i l :
+  i_running i = true -> tsf_error c s i = false -> (0 <= i_step i)%Z -> cont_ok (i_step i) true l ->
+  let s1 := step Rops c p s i in
+  saved_xv Rops s1 (i_step i) = (s_x_rep s1, s_v_rep s1) /\
+  trace Rops c p (restart_state Rops (s_x_rep s1) (s_v_rep s1)) (map (shift_input (i_step i)) (i :: l))
+  = map (shift_state (i_step i)) (trace Rops c p s (i :: l)).
+Proof.
+  intros Hrun Herr Hst Hl s1. destruct (step_keeps_live c p s i Hrun) as (L1 & L2 & L3). fold s1 in L1, L2, L3. split.
+  - unfold saved_xv. rewrite L3, Z.eqb_refl, orb_true_r. reflexivity.
+  - cbn [map trace]. fold s1.
+    pose proof (resume_first c p s i Hrun Herr Hst) as H0. cbn zeta in H0. fold s1 in H0. rewrite H0. f_equal.
+    apply (trace_shift_cont c p (i_step i) Hst l s1 true); auto; lia.
+Qed.
+
+(* ------------------------------------------------------------------ sleeping steps (timeStepFactor > 1) *)
+Lemma step_sleep c p s i : step Rops c p (sleep Rops s) i = step Rops c p s i.
+Proof. reflexivity. Qed.
+
+Lemma trace_sleep c p s l : trace Rops c p (sleep Rops s) l = trace Rops c p s l.
+Proof. destruct l as [| i r]; [reflexivity | ]. cbn [trace]. rewrite step_sleep. reflexivity. Qed.
+
+Lemma sleep_inert (s : @state R) :
+  let s' := sleep Rops s in
+  s_f s' = 0 /\ s_fr s' = 0 /\ s_err s' = false /\
+  s_x_ext s' = s_x_ext s /\ s_v_ext s' = s_v_ext s /\ s_x_rep s' = s_x_rep s /\ s_v_rep s' = s_v_rep s /\
+  s_prev_x s' = s_prev_x s /\ s_prev_v s' = s_prev_v s /\ s_prev_ts s' = s_prev_ts s /\ s_ft_rep s' = s_ft_rep s /\
+  s_ekin s' = s_ekin s /\ s_epot s' = s_epot s.
+Proof. cbn. repeat split. Qed.
+
+(* the states of the awake steps of a module run are the run of the awake inputs alone *)
+Fixpoint awake_states (c : @config R) (it0 : Z) (l : list (@input R)) (tr : list (@state R)) : list (@state R) :=
+  match l, tr with
+  | i :: r, s :: t => if awake_at c it0 i then s :: awake_states c it0 r t else awake_states c it0 r t
+  | _, _ => []
+  end.
+
+Lemma mtrace_awake c p it0 : forall l s,
+  awake_states c it0 l (mtrace Rops c p it0 s l) = trace Rops c p s (filter (awake_at c it0) l).
+Proof.
+  induction l as [| i r IH]; intros s; [reflexivity | ].
+  cbn [mtrace awake_states filter]. unfold mstep. destruct (awake_at c it0 i).
+  - cbn [trace]. f_equal. apply IH.
+  - rewrite IH. apply trace_sleep.
+Qed.
+
+(* engine steps t, t+1, t+2, ... with a running simulation *)
+Fixpoint esteps (t : Z) (l : list (@input R)) : Prop :=
+  match l with
+  | [] => True
+  | i :: r => i_step i = t /\ i_running i = true /\ esteps (t + 1) r
+  end.
+
+Lemma multiple_unique (f a b : Z) : (0 < f)%Z -> (a mod f = 0)%Z -> (b mod f = 0)%Z -> (a <= b < a + f)%Z -> a = b.
+Proof.
+  intros Hf Ha Hb Hab. apply Z.mod_divide in Ha; [ | lia]. apply Z.mod_divide in Hb; [ | lia].
+  destruct Ha as [x Hx]. destruct Hb as [y Hy]. subst a b. assert (x = y) by nia. subst. reflexivity.
+Qed.
+
+Lemma filter_consecutive (c : @config R) it0 : (0 < c_tsf c)%Z ->
+  forall l t u, esteps t l -> ((it0 + u) mod c_tsf c = 0)%Z -> (t <= u < t + c_tsf c)%Z ->
+    consecutive (c_tsf c) u (filter (awake_at c it0) l).
+Proof.
+  intros Hf. induction l as [| i r IH]; intros t u He Hu Htu; [exact I | ].
+  destruct He as (Hst & Hrun & He). cbn [filter]. unfold awake_at at 1. rewrite Hst.
+  destruct (Z.eqb_spec ((it0 + t) mod c_tsf c) 0) as [E | E].
+  - assert (it0 + t = it0 + u)%Z by (apply (multiple_unique (c_tsf c)); auto; lia).
+    assert (t = u) by lia. subst u. cbn [consecutive]. repeat split; auto.
+    apply (IH (t + 1)%Z); auto; [ | lia].
+    replace (it0 + (t + c_tsf c))%Z with (it0 + t + 1 * c_tsf c)%Z by lia. rewrite Z.mod_add by lia. exact E.
+  - apply (IH (t + 1)%Z); auto. assert (t <> u) by (intros ->; contradiction). lia.
+Qed.
+
+(* a fresh module run over ALL engine steps 0, 1, 2, ... with any time-step factor: the awake steps are the documented
+   integrator with the slow step Dt = dt * factor applied to the inputs of the awake steps, no factor error is raised,
+   and every sleeping step leaves the object alone and applies no force *)
+Lemma mts_run_documented c p l :
+  free_cfg c -> (0 < c_tsf c)%Z -> esteps 0 l ->
+  let la := filter (awake_at c 0) l in
+  map obs (awake_states c 0 l (mtrace Rops c p 0 (init_state Rops) l))
+  = doc_run c p (match la with i :: _ => i_x i | [] => 0 end) 0 la.
+Proof.
+  intros Hfree Hf He la. rewrite mtrace_awake. apply trace_fresh_documented; auto.
+  apply (filter_consecutive c 0 Hf l 0 0 He); [rewrite Z.mod_0_l; lia | lia].
+Qed.
+
+Lemma mstep_asleep c p it0 s i :
+  awake_at c it0 i = false ->
+  mstep Rops c p it0 s i = sleep Rops s /\ menergy Rops c it0 i (mstep Rops c p it0 s i) = 0.
+Proof. intros H. unfold mstep, menergy. rewrite H. split; reflexivity. Qed.
+
+(* state saved on a sleeping step and resumed: from the next awake step on, state for state the uninterrupted run *)
+Lemma resume_asleep_trace c p s t xe i l :
+  s_x_ext s = Some xe -> s_after_restart s = false -> (0 <= s_prev_ts s < t)%Z -> (t < i_step i)%Z ->
+  i_running i = true -> tsf_error c s i = false ->
+  List.Forall (fun j => i_running j = true /\ (i_step i < i_step j)%Z) l ->
+  saved_xv Rops s t = (xe, s_v_ext s) /\
+  trace Rops c p (restart_state Rops xe (s_v_ext s)) (map (shift_input t) (i :: l))
+  = map (shift_state t) (trace Rops c p s (i :: l)).
+Proof.
+  intros Hx Har Hts Hst Hrun Herr Hl. split.
+  - unfold saved_xv, xext_or. rewrite Hx.
+    replace (Z.ltb (s_prev_ts s) 0) with false by (symmetry; apply Z.ltb_ge; lia).
+    replace (Z.eqb (s_prev_ts s) t) with false by (symmetry; apply Z.eqb_neq; lia). reflexivity.
+  - cbn [map trace].
+    set (r0 := restart_state Rops xe (s_v_ext s)). set (i0 := shift_input t i).
+    assert (Hp : props_xv Rops c s i = (xe, s_v_ext s)).
+    { apply props_continue; auto; [lia | left; lia]. }
+    assert (Hp0 : props_xv Rops c r0 i0 = (xe, s_v_ext s)).
+    { unfold r0, i0. rewrite (props_continue c _ _ xe); [reflexivity | exact Hrun | cbn; lia | reflexivity | right; reflexivity]. }
+    assert (Herr0 : tsf_error c r0 i0 = false) by (apply tsf_error_consec; left; reflexivity).
+    assert (Hfirst : step Rops c p r0 i0 = shift_state t (step Rops c p s i)).
+    { rewrite (step_running_eq c p r0 i0 Hrun Herr0), (step_running_eq c p s i Hrun Herr). rewrite Hp, Hp0. reflexivity. }
+    rewrite Hfirst. f_equal.
+    destruct (step_keeps_live c p s i Hrun) as (L1 & L2 & L3).
+    apply trace_shift; auto; [lia | ].
+    eapply Forall_impl; [ | exact Hl]. intros j [Hj1 Hj2]. split; [exact Hj1 | lia].
+Qed.
+
+(* ------------------------------------------------------------------ energy balance with moving atoms and a time-dependent bias force *)
+(* exact discrete work-energy identity of one frictionless step.  E* = Ek + Ep - Dt^2 F_t^2/(8m)  (F_t = total force on the coordinate
+   at step t; Ek - Dt^2 F_t^2/(8m) = 1/2 m v_(t-1/2) v_(t+1/2)) changes from step t to t+1 by exactly the trapezoidal work of the bias
+   force on the coordinate minus the trapezoidal work of the spring on the moving variable *)
+Definition doc_estar (c : @config R) (p : @params R) (x v X fb : R) : R :=
+  doc_ekin c p x v X fb + doc_epot p x X - Dt c ^ 2 * doc_force p x X fb ^ 2 / (8 * p_m p).
+
+Lemma doc_energy_balance c p x v X1 fb1 X2 fb2 rnd :
+  p_langevin p = false -> p_m p <> 0 ->
+  let q := doc_step c p x v X1 fb1 rnd in
+  doc_estar c p (fst q) (snd q) X2 fb2 - doc_estar c p x v X1 fb1
+  = 1 / 2 * (fb1 + fb2) * (fst q - x) - 1 / 2 * p_k p * ((x - X1) + (fst q - X2)) * (X2 - X1).
+Proof.
+  intros Hl Hm q. unfold q, doc_step. rewrite Hl. cbn [fst snd]. unfold doc_estar, doc_ekin, doc_epot, doc_force. field. exact Hm.
+Qed.
+
+Lemma doc_estar_half_steps c p x v X fb :
+  p_m p <> 0 ->
+  doc_ekin c p x v X fb - Dt c ^ 2 * doc_force p x X fb ^ 2 / (8 * p_m p)
+  = 1 / 2 * p_m p * v * (v + Dt c * doc_force p x X fb / p_m p).
+Proof. intros Hm. unfold doc_ekin. field. exact Hm. Qed.
+
+Definition io_estar (c : @config R) (p : @params R) (io : @input R * (R * R * R * R * R * R)) : R :=
+  let '(i, o) := io in
+  ob_ek o + ob_ep o - Dt c ^ 2 * (i_fb i / IZR (c_tsf c) - p_k p * (ob_x o - i_x i)) ^ 2 / (8 * p_m p).
+
+Fixpoint dwork (c : @config R) (p : @params R) (ls : list (@input R * (R * R * R * R * R * R))) : R :=
+  match ls with
+  | (i1, o1) :: (((i2, o2) :: _) as r) =>
+      1 / 2 * (i_fb i1 / IZR (c_tsf c) + i_fb i2 / IZR (c_tsf c)) * (ob_x o2 - ob_x o1)
+      - 1 / 2 * p_k p * ((ob_x o1 - i_x i1) + (ob_x o2 - i_x i2)) * (i_x i2 - i_x i1)
+      + dwork c p r
+  | _ => 0
+  end.
+
+Lemma doc_run_work c p :
+  p_langevin p = false -> p_m p <> 0 ->
+  forall l x v d,
+    let ls := combine l (doc_run c p x v l) in
+    io_estar c p (last ls d) - io_estar c p (hd d ls) = dwork c p ls.
+Proof.
+  intros Hl Hm. induction l as [| i1 r IH]; intros x v d; [cbn; ring | ].
+  destruct r as [| i2 r].
+  - cbn [doc_run]. destruct (doc_step c p x v (i_x i1) (i_fb i1 / IZR (c_tsf c)) (i_rnd i1)) as [x' v']. cbn. ring.
+  - pose proof (doc_energy_balance c p x v (i_x i1) (i_fb i1 / IZR (c_tsf c)) (i_x i2) (i_fb i2 / IZR (c_tsf c)) (i_rnd i1) Hl Hm) as Hb.
+    cbn zeta in Hb. cbn zeta in IH. cbn zeta. cbn [doc_run] in *.
+    destruct (doc_step c p x v (i_x i1) (i_fb i1 / IZR (c_tsf c)) (i_rnd i1)) as [x' v'] eqn:Hd. cbn [fst snd] in Hb.
+    specialize (IH x' v' d). cbn [doc_run] in IH.
+    destruct (doc_step c p x' v' (i_x i2) (i_fb i2 / IZR (c_tsf c)) (i_rnd i2)) as [x'' v''] eqn:Hd2.
+    cbn [combine] in *. set (tail := combine r (doc_run c p x'' v'' r)) in *.
+    set (o1 := (x, v, x', v', doc_ekin c p x v (i_x i1) (i_fb i1 / IZR (c_tsf c)), doc_epot p x (i_x i1))) in *.
+    set (o2 := (x', v', x'', v'', doc_ekin c p x' v' (i_x i2) (i_fb i2 / IZR (c_tsf c)), doc_epot p x' (i_x i2))) in *.
+    change (last ((i1, o1) :: (i2, o2) :: tail) d) with (last ((i2, o2) :: tail) d).
+    cbn [hd dwork] in *.
+    assert (E1 : io_estar c p (i1, o1) = doc_estar c p x v (i_x i1) (i_fb i1 / IZR (c_tsf c))) by reflexivity.
+    assert (E2 : io_estar c p (i2, o2) = doc_estar c p x' v' (i_x i2) (i_fb i2 / IZR (c_tsf c))) by reflexivity.
+    rewrite E1. rewrite E2 in IH. change (ob_x o1) with x. change (ob_x o2) with x' in *. lra.
+Qed.
+
+Lemma run_energy_balance c p l d :
+  free_cfg c -> (0 < c_tsf c)%Z -> p_langevin p = false -> p_m p <> 0 -> consecutive (c_tsf c) 0 l ->
+  let ls := combine l (map obs (trace Rops c p (init_state Rops) l)) in
+  io_estar c p (last ls d) - io_estar c p (hd d ls) = dwork c p ls.
+Proof.
+  intros Hfree Hf Hl Hm Hc. rewrite (trace_fresh_documented c p l Hfree Hf Hc). apply doc_run_work; assumption.
+Qed.
+
+(* the reported Ek + Ep exceeds E* by Dt^2 F_t^2/(8m): second order in the time step, bounded when the forces are *)
+Lemma estar_gap c p x v X fb Fmax :
+  0 < p_m p -> Rabs (doc_force p x X fb) <= Fmax ->
+  0 <= (doc_ekin c p x v X fb + doc_epot p x X) - doc_estar c p x v X fb <= Dt c ^ 2 * Fmax ^ 2 / (8 * p_m p).
+Proof.
+  intros Hm HF. unfold doc_estar.
+  replace (doc_ekin c p x v X fb + doc_epot p x X - (doc_ekin c p x v X fb + doc_epot p x X - Dt c ^ 2 * doc_force p x X fb ^ 2 / (8 * p_m p)))
+    with (Dt c ^ 2 * doc_force p x X fb ^ 2 / (8 * p_m p)) by ring.
+  assert (H2 : doc_force p x X fb ^ 2 <= Fmax ^ 2).
+  { rewrite <- (pow2_abs (doc_force p x X fb)). apply pow_incr. split; [apply Rabs_pos | exact HF]. }
+  assert (H0 : 0 <= doc_force p x X fb ^ 2) by apply pow2_ge_0.
+  assert (Hd : 0 <= Dt c ^ 2) by apply pow2_ge_0.
+  assert (Hi : 0 < / (8 * p_m p)) by (apply Rinv_0_lt_compat; lra).
+  unfold Rdiv. split.
+  - apply Rmult_le_pos; [apply Rmult_le_pos; assumption | lra].
+  - apply Rmult_le_compat_r; [lra | ]. apply Rmult_le_compat_l; assumption.
+Qed.
+
+(* ------------------------------------------------------------------ Langevin: stationary covariance of the B-A-O-A scheme, harmonic case *)
+(* with frozen atoms at X and no bias force the step is LINEAR in (x - X, v, xi): *)
+Definition la (c : @config R) (p : @params R) : R := exp (- (p_gamma p * Dt c)).
+Definition lw (c : @config R) (p : @params R) : R := Dt c * p_k p / p_m p.
+Definition A11 c p : R := 1 - Dt c / 2 * (1 + la c p) * lw c p.
+Definition A12 c p : R := Dt c / 2 * (1 + la c p).
+Definition A21 c p : R := - (la c p * lw c p).
+Definition A22 c p : R := la c p.
+Definition N1 c p : R := Dt c / 2 * (p_sigma p / p_m p).
+Definition N2 (p : @params R) : R := p_sigma p / p_m p.
+
+Lemma doc_step_linear c p x v X rnd :
+  p_langevin p = true -> p_m p <> 0 ->
+  fst (doc_step c p x v X 0 rnd) - X = A11 c p * (x - X) + A12 c p * v + N1 c p * rnd /\
+  snd (doc_step c p x v X 0 rnd) = A21 c p * (x - X) + A22 c p * v + N2 p * rnd.
+Proof.
+  intros Hl Hm. unfold doc_step, doc_force. rewrite Hl. cbn [fst snd].
+  unfold A11, A12, A21, A22, N1, N2, lw, la. split; field; exact Hm.
+Qed.
+
+(* second moments of (x - X, v) after one step, from those before and an independent Gaussian number of unit variance *)
+Definition cov_step c p (S : R * R * R) : R * R * R :=
+  let '(Sxx, Sxv, Svv) := S in
+  (A11 c p ^ 2 * Sxx + 2 * A11 c p * A12 c p * Sxv + A12 c p ^ 2 * Svv + N1 c p ^ 2,
+   A11 c p * A21 c p * Sxx + (A11 c p * A22 c p + A12 c p * A21 c p) * Sxv + A12 c p * A22 c p * Svv + N1 c p * N2 p,
+   A21 c p ^ 2 * Sxx + 2 * A21 c p * A22 c p * Sxv + A22 c p ^ 2 * Svv + N2 p ^ 2).
+
+(* the thermal covariance <(x-X)^2> = kT/k, <v_(t-1/2)^2> = kT/m, <(x-X) v_(t-1/2)> = Dt kT/(2m) is stationary, for EVERY
+   time step and friction: positions and half-step velocities sample the target temperature exactly; the on-step velocity used
+   for the reported kinetic energy has variance (kT/m)(1 - h) *)
+Lemma langevin_stationary c p kT :
+  p_m p <> 0 -> p_k p <> 0 -> p_sigma p ^ 2 = (1 - la c p ^ 2) * p_m p * kT ->
+  let S := (kT / p_k p, Dt c / 2 * (kT / p_m p), kT / p_m p) in
+  cov_step c p S = S /\
+  (let '(Sxx, Sxv, Svv) := S in Svv - lw c p * Sxv + (lw c p / 2) ^ 2 * Sxx) = kT / p_m p * (1 - hfac c p).
+Proof.
+  intros Hm Hk Hs. cbn zeta. split.
+  - unfold cov_step. 
+    assert (Hn2 : N2 p ^ 2 = (1 - la c p ^ 2) * kT / p_m p).
+    { unfold N2. replace ((p_sigma p / p_m p) ^ 2) with (p_sigma p ^ 2 / (p_m p ^ 2)) by (field; exact Hm). rewrite Hs. field. exact Hm. }
+    assert (Hn1 : N1 c p ^ 2 = (Dt c / 2) ^ 2 * N2 p ^ 2) by (unfold N1, N2; ring).
+    assert (Hn12 : N1 c p * N2 p = Dt c / 2 * N2 p ^ 2) by (unfold N1, N2; ring).
+    rewrite Hn1, Hn12, Hn2. unfold A11, A12, A21, A22, lw. generalize (la c p). intro a.
+    apply tup4 with (d := tt) (d' := tt) || idtac.
+    f_equal; [f_equal | ]; field; split; assumption.
+  - unfold lw, hfac. field. split; assumption.
+Qed.
+
+Lemma sigma_sq_documented c :
+  c_damping c <> 0 -> 0 <= c_kB c * c_temp c -> 0 <= p_m (init_params Rops PI c) -> 0 <= p_gamma (init_params Rops PI c) * Dt c ->
+  let p := init_params Rops PI c in
+  p_sigma p ^ 2 = (1 - la c p ^ 2) * p_m p * (c_kB c * c_temp c).
+Proof.
+  intros Hd HkT Hm Hg p. destruct (params_langevin c Hd) as (_ & _ & Hs). fold p in Hs, Hm, Hg. rewrite Hs.
+  assert (Ha : la c p ^ 2 = exp (- 2 * p_gamma p * Dt c)).
+  { unfold la. simpl. rewrite Rmult_1_r, <- exp_plus. f_equal. ring. }
+  rewrite Ha.
+  replace ((1 - exp (- 2 * p_gamma p * Dt c)) * p_m p * c_kB c * c_temp c)
+    with ((1 - exp (- 2 * p_gamma p * Dt c)) * p_m p * (c_kB c * c_temp c)) by ring.
+  rewrite <- Rsqr_pow2, Rsqr_sqrt; [ring | ].
+  assert (He : exp (- 2 * p_gamma p * Dt c) <= 1).
+  { replace 1 with (exp 0) by apply exp_0. destruct (Req_dec (p_gamma p * Dt c) 0) as [Z | NZ].
+    - replace (- 2 * p_gamma p * Dt c) with 0 by lra. lra.
+    - left. apply exp_increasing. nra. }
+  apply Rmult_le_pos; [ | exact HkT]. apply Rmult_le_pos; lra.
+Qed.
+
+(* ------------------------------------------------------------------ periodic variable *)
+Lemma integrate_norefl c p xe ve F rnd :
+  c_refl_lo c = false -> c_refl_up c = false ->
+  integrate Rops c p xe ve F rnd =
+    let v2 := ve + Dt c * F / p_m p in
+    let v3 := if p_langevin p then exp (- (p_gamma p * Dt c)) * v2 + p_sigma p * rnd / p_m p else v2 in
+    (cv_wrap Rops c (xe + Dt c * (v2 + v3) / 2), v3, 1 / 2 * p_m p * (ve + Dt c * F / p_m p / 2) ^ 2, false).
+Proof.
+  intros Hlo Hup. unfold integrate, reflect. rewrite Hlo, Hup. cbn [andb orb].
+  rewrite big_dt_R. cbn [nadd nsub nmul ndiv nneg nexp Rops n1 n0 nofZ nhalf].
+  replace (- (1) * Dt c * p_gamma p) with (- (p_gamma p * Dt c)) by ring.
+  assert (W : forall a b, a = b -> cv_wrap Rops c a = cv_wrap Rops c b) by (intros a b E; rewrite E; reflexivity).
+  destruct (p_langevin p); cbn zeta; apply tup4; try reflexivity; try apply W; unfold Rdiv;
+    generalize (/ p_m p); intro q; try (generalize (exp (- (p_gamma p * Dt c))); intro ex); field.
+Qed.
+
+(* the periodic image of the variable's value nearest to the coordinate *)
+Definition near_image (P xe X : R) : R := xe - pdiff Rops P (xe - X).
+
+(* one step of a periodic variable = the documented step towards the nearest periodic image of X, then wrapped into
+   [ctr - P/2, ctr + P/2); the image is X + n P with |xe - image| <= P/2 *)
+Lemma step_periodic_obs (c : @config R) (p : @params R) (s : @state R) (i : @input R) P ctr xe ve :
+  c_refl_lo c = false -> c_refl_up c = false -> c_period c = Some (P, ctr) -> 0 < P ->
+  i_running i = true -> tsf_error c s i = false -> props_xv Rops c s i = (xe, ve) ->
+  let fb := i_fb i / IZR (c_tsf c) in
+  let Xn := near_image P xe (i_x i) in
+  let q := doc_step c p xe ve Xn fb (i_rnd i) in
+  let s' := step Rops c p s i in
+  obs s' = (xe, ve, cvc_wrap Rops ctr P (fst q), snd q, doc_ekin c p xe ve Xn fb, doc_epot p xe Xn) /\
+  s_f s' = IZR (c_tsf c) * (p_k p * (xe - Xn)) + i_fba i /\
+  (exists n : Z, Xn = i_x i + IZR n * P) /\ - P / 2 <= xe - Xn < P / 2 /\
+  ctr - P / 2 <= cvc_wrap Rops ctr P (fst q) < ctr + P / 2 /\ (exists n : Z, cvc_wrap Rops ctr P (fst q) = fst q - IZR n * P) /\
+  s_err s' = false.
+Proof.
+  intros Hlo Hup Hper HP Hrun Herr Hp fb Xn q s'.
+  assert (Hsp : f_spring c p xe (i_x i) = - (p_k p * (xe - Xn))).
+  { unfold f_spring, spring, cv_lgrad, per_grad, Xn, near_image. rewrite Hper.
+    cbn [nmul nsub nofZ nneg nhalf ndiv n1 Rops]. field. }
+  assert (Hd2 : cv_dist2 Rops c xe (i_x i) = (xe - Xn) ^ 2).
+  { unfold cv_dist2, per_dist2, Xn, near_image. rewrite Hper. cbn [nmul nsub Rops]. ring. }
+  unfold s'. rewrite (step_running_eq c p s i Hrun Herr). rewrite Hp. cbn [fst snd].
+  rewrite (integrate_norefl c p _ _ _ _ Hlo Hup). rewrite Hsp, Hd2.
+  unfold obs, xext_or. cbn [s_x_rep s_v_rep s_x_ext s_v_ext s_ekin s_epot s_f s_err fst snd].
+  unfold cv_wrap. rewrite Hper. unfold q, doc_step, doc_ekin, doc_epot, doc_force. fold fb.
+  replace (fb + - (p_k p * (xe - Xn))) with (fb - p_k p * (xe - Xn)) by ring.
+  cbn [fst snd]. split; [reflexivity | ]. split; [ring | ].
+  split.
+  { unfold Xn, near_image. rewrite pdiff_eq. exists (Zfloor ((xe - i_x i) / P + 1 / 2)). ring. }
+  split.
+  { unfold Xn, near_image. replace (xe - (xe - pdiff Rops P (xe - i_x i))) with (pdiff Rops P (xe - i_x i)) by ring.
+    apply pdiff_range. exact HP. }
+  split; [apply cvc_wrap_range; exact HP | ]. split; [apply cvc_wrap_equiv | reflexivity].
 Qed.
